@@ -1,6 +1,7 @@
 import Proofs.C06
 import Proofs.TieBasis
 import Proofs.TieInnerStep
+import Proofs.SrcC06
 #print axioms PV.Proofs.C06.reset_set_eq
 #print axioms PV.Proofs.C06.set_differs
 #print axioms PV.Proofs.C06.acceptScore_some
@@ -29,3 +30,7 @@ import Proofs.TieInnerStep
 #print axioms PV.Proofs.Tie.sample_tie
 #print axioms PV.Proofs.Tie.declared_translated_innerstep
 #print axioms PV.Proofs.Tie.inner_step_tie
+#print axioms PV.Proofs.Source.C06_source_reset_after_set
+#print axioms PV.Proofs.Source.C06_source_proposal_differs
+#print axioms PV.Proofs.Source.C06_source_step_keeps_or_restores
+#print axioms PV.Proofs.Source.C06_source_step_touches_one_cell
